@@ -68,9 +68,12 @@ def trace_function(fn, kwargs: dict, *, allow_constants=False):
             if not allow_constants and is_variable(result):
                 raise ValueError(f"Found constant: {repr(result)}")
 
-    # Collect inputs (leaves).
+    # Collect inputs (leaves). A program returns its last value, so if fn
+    # returns one of its inputs unchanged that input must be listed last.
+    if id(root) in ids and kwargs:
+        raise ValueError("Function returns a constant")
     inputs = []
-    for name, value in kwargs.items():
+    for name, value in sorted(kwargs.items(), key=lambda kv: kv[1] is root):
         ids[id(value)] = len(ids)
         inputs.append(name)
 
